@@ -52,6 +52,12 @@ type Engine struct {
 	fnHash   map[string]string
 }
 
+// defaultRedirects send library entry points to implementations in the harness
+// runtime of the package under test.
+var defaultRedirects = map[string]string{
+	"github.com/ethereum/go-ethereum/crypto.NewKeccakState": "verifNewKeccakState",
+}
+
 type intrinsicFn func(e *Exec, fn *ssa.Function, args []Value) Value
 
 func (g *Engine) intrinsic(fn *ssa.Function) intrinsicFn {
@@ -77,12 +83,16 @@ func (g *Engine) intrinsic(fn *ssa.Function) intrinsicFn {
 
 // redirect maps a callee to a harness-provided replacement function.
 func (g *Engine) redirect(fn *ssa.Function, h *Harness) *ssa.Function {
-	if len(h.Redirect) == 0 {
+	if fn.Pkg == nil {
 		return nil
 	}
 	to, ok := h.Redirect[fn.String()]
 	if !ok {
-		return nil
+		to, ok = defaultRedirects[fn.String()]
+		if !ok {
+			return nil
+		}
+		to = h.Pkg + "." + to
 	}
 	g.redirMu.Lock()
 	defer g.redirMu.Unlock()
@@ -291,11 +301,16 @@ func (g *Engine) runHarness(h *Harness, solverKind string, timeoutMs int) (res *
 	e := &Exec{prog: g.prog, eng: g, tb: tb, sol: sol, h: h,
 		globals: map[*ssa.Global]*Obj{}, initSnap: map[*Obj]Value{}, initDone: map[*ssa.Package]bool{},
 		sharedWrites: map[string]string{}, allReached: map[string]int{}, vioSeen: map[string]bool{},
-		atomicAccess: map[*Obj]bool{}, funcsSeen: map[string]bool{}, strCache: map[string]*Term{}, guessCache: map[string]*Term{}, known: map[int]bool{}, varSeq: map[string]int{}}
+		atomicAccess: map[*Obj]bool{}, strictInit: map[*ssa.Package]bool{}, funcsSeen: map[string]bool{}, strCache: map[string]*Term{}, guessCache: map[string]*Term{}, known: map[int]bool{}, varSeq: map[string]int{}}
 	res.exec = e
 	e.workAlloc, e.workCopy = tb.BVu(0, 64), tb.BVu(0, 64)
 	// package initialisation of the package under test (concrete)
 	e.inInit = true
+	for path, sp := range g.pkgs {
+		if strings.HasPrefix(path, "github.com/artela-network/artela-evm/") {
+			e.strictInit[sp] = true
+		}
+	}
 	func() {
 		defer func() {
 			if r := recover(); r != nil {
